@@ -46,18 +46,24 @@ CHOICES = st.lists(st.integers(0, 11), min_size=1, max_size=8)
 FIELD_NAMES = ['a', 'b', 'c', 'd']
 
 
+def _identity(x):
+  return x
+
+
 def _mods(base, allow_frozen=True):
-  def add(d, noneable, default, frozen):
+  def add(d, noneable, default, frozen, xform=False):
     d = dict(d)
     if noneable:
       d['noneable'] = True
+    if xform and d.get('t') not in ('union', 'any'):
+      d['xform'] = True      # a user transform (the identity): validation then goes through the transform-less twin
     if default is not None:
       d['default'] = default
       if frozen and allow_frozen:
         d['frozen'] = True
     return d
   return st.builds(add, base, st.booleans(), st.one_of(st.none(), st.none(), CHOICES),
-                   st.sampled_from([False, False, False, True]))
+                   st.sampled_from([False, False, False, True]), st.sampled_from([False] * 5 + [True]))
 
 
 def _bound():
@@ -317,6 +323,8 @@ def to_spec(d, _validated=False):
       s = T.Any()
     else:
       raise core.InvalidCase(d)
+    if d.get('xform'):
+      s._transform = _identity      # pylint: disable=protected-access  (what the constructor argument `transform=` stores)
     if d.get('noneable'):
       s = s.noneable()
     if 'default' in d:
